@@ -160,6 +160,9 @@ def _single(kind):
       y = g.concat([x, z], 'y')
     elif kind == 'CONCAT_SAME':
       y = g.concat([x, x], 'y')
+    elif kind == 'CONCAT_CONST':
+      c = g.const('c', np.array([[0.5, -1.5]], np.float32))
+      y = g.concat([x, c], 'y')
     elif kind == 'SPLIT':
       y0, y1 = g.split(x, ['y0', 'y1'])
       g.output(y0)
@@ -181,7 +184,7 @@ SINGLE_KINDS = ['FC', 'FC_NOBIAS', 'CONV_2D', 'DEPTHWISE_CONV_2D',
                 'CONCAT_SAME', 'SPLIT', 'RELU', 'CAST', 'AVERAGE_POOL_2D_RELU',
                 'AVERAGE_POOL_2D_RELU6', 'FC_RELU', 'ADD_RELU6', 'CONV_2D_NOBIAS',
                 'DEPTHWISE_CONV_2D_NOBIAS', 'TRANSPOSE_CONV_NOBIAS',
-                'TRANSPOSE_CONV_EMPTY_BIAS']
+                'TRANSPOSE_CONV_EMPTY_BIAS', 'CONCAT_CONST']
 
 
 def _topologies():
